@@ -263,7 +263,9 @@ func check(s setup, u *url.URL, rec *httptest.ResponseRecorder) string {
 		}
 		okFile := false
 		for _, e := range strings.Split(s.exts, "|") {
-			if strings.HasSuffix(f, "."+e) {
+			// (an empty item in the list allows request paths that end in a bare dot - "x/..", "x/." - which name
+			// directories or their parents: what is served then is whatever that path denotes inside the root)
+			if strings.HasSuffix(f, "."+e) || e == "" {
 				okFile = true
 			}
 		}
@@ -298,7 +300,7 @@ func prop(t *rapid.T) {
 	s := setup{
 		kind:     rapid.SampledFrom([]string{"StaticDir", "StaticFS", "StaticFiles", "StaticFiles", "StaticFile"}).Draw(t, "kind"),
 		prefix:   rapid.SampledFrom([]string{"/assets", "/s", "/a/b", "/static.v1"}).Draw(t, "prefix"),
-		exts:     rapid.SampledFrom([]string{"css|js", "html", "css", "js|html|txt"}).Draw(t, "exts"),
+		exts:     rapid.SampledFrom([]string{"css|js", "html", "css", "js|html|txt", "css|js|", "css||js", ""}).Draw(t, "exts"), // (an empty item allows nothing but a bare trailing dot)
 		encoded:  rapid.Bool().Draw(t, "useEncodedPath"),
 		relative: rapid.IntRange(0, 2).Draw(t, "relativeRoot") == 0,
 	}
